@@ -2810,6 +2810,13 @@ func (c S3ApiController) PutActions(ctx *fiber.Ctx) error {
 		})
 }
 
+// bucket sub-resources of the S3 API that the gateway does not implement
+var unsupportedBucketSubresources = []string{
+	"lifecycle", "website", "encryption", "replication", "publicAccessBlock",
+	"analytics", "metrics", "inventory", "intelligent-tiering", "metadataTable",
+	"notification", "logging", "accelerate", "requestPayment",
+}
+
 func (c S3ApiController) DeleteBucket(ctx *fiber.Ctx) error {
 	bucket := ctx.Params("bucket")
 	acct := ctx.Locals("account").(auth.Account)
@@ -2941,6 +2948,20 @@ func (c S3ApiController) DeleteBucket(ctx *fiber.Ctx) error {
 				Action:      metrics.ActionDeleteBucketCors,
 				BucketOwner: parsedAcl.Owner,
 			})
+	}
+
+	// a DELETE that addresses a bucket setting the gateway does not keep
+	// (DeleteBucketLifecycle, DeleteBucketWebsite ...) is not a DeleteBucket
+	for _, sub := range unsupportedBucketSubresources {
+		if ctx.Request().URI().QueryArgs().Has(sub) {
+			return SendResponse(ctx, s3err.GetAPIError(s3err.ErrNotImplemented),
+				&MetaOpts{
+					Logger:      c.logger,
+					MetricsMng:  c.mm,
+					Action:      metrics.ActionDeleteBucket,
+					BucketOwner: parsedAcl.Owner,
+				})
+		}
 	}
 
 	err := auth.VerifyAccess(ctx.Context(), c.be,
